@@ -4,8 +4,8 @@ Same format as mutants.py; `props` lists the checks to run (default: all)."""
 R = []
 
 
-def r(id, *edits, props=None):
-    R.append(dict(id=id, edits=list(edits), props=props))
+def r(id, *edits, props=None, diff=None):
+    R.append(dict(id=id, edits=list(edits), props=props, diff=diff))
 
 
 # cmp::min -> Ord::min method form; closure -> explicit match
@@ -107,7 +107,6 @@ r('rf-ctl-helper',
    "fn insert_by_time<P>(points: &mut Vec<P>, point: P, time: fn(&P) -> f64) {\n    let point_time = time(&point);\n\n    match points.binary_search_by(|probe| time(probe).total_cmp(&point_time)) {\n        Err(i) => points.insert(i, point),\n        Ok(i) => points[i] = point,\n    }\n}\n\n// osu!taiko conversion mutates the list of effect points"),
   props=['C06', 'C19'])
 
-REFACTORS = R
 
 # the five mode-independent clamps applied where the value is parsed; the mode-dependent one (cs) stays where the mode is final
 r('rf-clamp-while-parsing',
@@ -143,3 +142,21 @@ r('rf-resolve-helper',
   ('src/model/beatmap/attributes.rs', '                let raw_od = if self.od.with_mods() {\n                    self.od.value(mods, GameMods::od)\n                } else {\n                    mod_mult(self.od.value(mods, GameMods::od))\n                };\n\n                let great = difficulty_range(f64::from(raw_od), TAIKO_GREAT) / od_clock_rate;\n                let ok = difficulty_range(f64::from(raw_od), TAIKO_OK) / od_clock_rate;\n', '                let great = difficulty_range(raw_od, TAIKO_GREAT) / od_clock_rate;\n                let ok = difficulty_range(raw_od, TAIKO_OK) / od_clock_rate;\n'),
   ('src/model/beatmap/attributes.rs', '            ModsDependentKind::Custom(inner) => inner.value,\n        }\n    }\n', '            ModsDependentKind::Custom(inner) => inner.value,\n        }\n    }\n\n    fn resolve(\n        &self,\n        mods: &GameMods,\n        mods_fn: impl Fn(&GameMods) -> Option<f64>,\n        clock_rate: f64,\n    ) -> (f64, f64) {\n        let value = self.value(mods, mods_fn);\n\n        if self.with_mods() {\n            (f64::from(value), 1.0)\n        } else if mods.hr() {\n            (f64::from((value * 1.4).min(10.0)), clock_rate)\n        } else if mods.ez() {\n            (f64::from(value * 0.5), clock_rate)\n        } else {\n            (f64::from(value), clock_rate)\n        }\n    }\n'),
   props=['C17', 'C08', 'C18'])
+
+
+# ---- refactors written by independent sub-agents (three per property area; they saw the property text and a scratch worktree only).
+# Each was required to be behaviour-preserving, to build in all four feature sets and to leave the suite unchanged; every check runs on each.
+for _area in ('C01', 'C02', 'C03', 'C04', 'C05', 'C06', 'C07', 'C08', 'C10', 'C11', 'C12', 'C14', 'C15', 'C16', 'C17', 'C18', 'C19', 'C20'):
+    for _i in (1, 2, 3):
+        r('agent-%s-r%d' % (_area, _i), diff='selftest/refactor_diffs/%s-r%d.diff' % (_area, _i))
+
+
+# the same remainder written from the other side: (n_objects - misses) - (hits without misses)
+r('rf-remainder-other-side',
+  ('src/mania/performance/mod.rs', "                                        let remaining = n_objects - curr.total_hits();",
+   "                                        let remaining = n_remaining - (curr.total_hits() - misses);"),
+  ('src/osu/performance/mod.rs', "            let remaining = n_objects.saturating_sub(n300 + n100 + n50 + misses);",
+   "            let remaining = n_remaining.saturating_sub(n300 + n100 + n50);"),
+  props=['C12'])
+
+REFACTORS = R
